@@ -9,6 +9,10 @@ and leftmost, so every MAXIMAL run of such characters is replaced by `repl` once
 A copy of `Import.collapseWsChars` of `Model/Import/Common.lean` (with the replacement as a parameter), so that the generated modules
 need not import the model; `FactsAgree/TransImportSupercard.lean` proves the copy equal to the original (`replaceAllWs_model`).  The
 original is compared with the real `regexp` by the stream `lib-str` of C13.
+
+`Regexp.matchDate`, `Strings.TrimSpace`, `Strings.replaceChfApos` (`ch.swisscard`): copies of `Import.dateRe`, `Import.trimSpace`,
+`Import.Swisscard.stripChf`, proved equal to the originals in `FactsAgree/TransImportSwisscard.lean`; the originals are compared with
+real Go by the same stream.
 -/
 namespace Knut.GoSem
 
@@ -34,6 +38,49 @@ decreasing_by
 /-- `regexp.MustCompile("\\s+").ReplaceAllString(src, repl)` for a replacement without `$` -/
 def replaceAllWs (src repl : String) : String := String.ofList (replaceAllWsChars repl.toList src.toList)
 
+/-- a decimal digit `\d` = `[0-9]` -/
+def isDig (c : Char) : Bool := '0' ≤ c && c ≤ '9'
+
+/-- `\d\d.\d\d.\d\d\d\d` at the start of the list (`.` = any character but newline) -/
+def dateReHere : List Char → Bool
+  | a :: b :: x :: c :: d :: y :: e :: f :: g :: h :: _ =>
+    isDig a && isDig b && x != '\n' && isDig c && isDig d && y != '\n' && isDig e && isDig f && isDig g && isDig h
+  | _ => false
+
+def anySuffix (p : List Char → Bool) : List Char → Bool
+  | [] => p []
+  | c :: cs => p (c :: cs) || anySuffix p cs
+
+/-- `regexp.MustCompile(`\d\d.\d\d.\d\d\d\d`).MatchString(s)` (unanchored; `ch.swisscard`, `ch.cumulus`): a copy of `Import.dateRe`
+(`Model/Import/Common.lean`, compared with the real `regexp` by the stream `lib-str` of C13); `TransImportSwisscard.matchDate_model` -/
+def matchDate (s : String) : Bool := anySuffix dateReHere s.toList
+
 end Regexp
+
+namespace Strings
+
+/-- `unicode.IsSpace` -/
+def isSpaceU (c : Char) : Bool :=
+  let n := c.toNat
+  (9 ≤ n && n ≤ 13) || n == 32 || n == 0x85 || n == 0xA0 || n == 0x1680 || (0x2000 ≤ n && n ≤ 0x200a) ||
+  n == 0x2028 || n == 0x2029 || n == 0x202f || n == 0x205f || n == 0x3000
+
+/-- `strings.TrimSpace(s)`: a copy of `Import.trimSpace` (`TransImportSwisscard.TrimSpace_model`) -/
+def TrimSpace (s : String) : String :=
+  String.ofList (((s.toList.dropWhile isSpaceU).reverse.dropWhile isSpaceU).reverse)
+
+/-- the characters of `strings.NewReplacer("CHF", "", "'", "").Replace`: at every position the first pair (in argument order) whose
+old string matches is applied, then the scan continues after the match -/
+def replaceChfAposChars : List Char → List Char
+  | [] => []
+  | 'C' :: 'H' :: 'F' :: rest => replaceChfAposChars rest
+  | '\'' :: rest => replaceChfAposChars rest
+  | c :: rest => c :: replaceChfAposChars rest
+
+/-- `strings.NewReplacer("CHF", "", "'", "").Replace(s)` (`ch.swisscard`; the package-level replacer with exactly these constant
+arguments): a copy of `Import.Swisscard.stripChf` (`TransImportSwisscard.replaceChfApos_model`) -/
+def replaceChfApos (s : String) : String := String.ofList (replaceChfAposChars s.toList)
+
+end Strings
 
 end Knut.GoSem
